@@ -5,7 +5,7 @@ macro_rules! width_list {
         dispatch_widths!(dispatch, call, Op;
             0, 1, 2, 3, 4, 5, 6, 7, 8, 9, 10, 11, 12, 13, 14, 15, 16, 17, 24, 25, 31, 32, 33, 53, 54,
     40, 60, 63, 64, 65, 66, 72, 120, 121, 127, 128, 129, 136, 191, 192, 193, 200, 250, 255, 256, 257, 320, 384, 511, 512, 513,
-    1023, 1024, 1025, 1100, 2048);
+    1023, 1024, 1025, 1100, 2048, 65664);
     };
 }
 const SWEEP: bool = false;
